@@ -47,6 +47,7 @@ def shards(tier):
     for n in range(1, d['L'] + 1):
         for pre in itertools.product('SKGM', repeat=min(n, 2)):
             out.append({'kind': 'types', 'n': n, 'pre': ''.join(pre)})
+    out += [{'kind': 'long', 'seq': s} for s in (('SKGMKSGMK', 'MSKGKSMGKSKM') if th_(tier) else ('MSKGKSMGKSKM',))]
     out += [{'kind': 'pairs', 'seq': s} for s in ('KSGM', 'SKG')]
     out += [{'kind': 'options', 'seq': s, 'ions': ions} for s in ('SK', 'KSG', 'SKGM', 'MSKK')
             for ions in (['b', 'y'], ['a', 'x', 'by', 'i'])]
@@ -99,8 +100,24 @@ def shape_values(axis, level):
     raise KeyError(axis)
 
 
+def th_(tier):
+    return tier == 'thorough'
+
+
 def gen(shard, tier):
     kind = shard['kind']
+    if kind == 'long':
+        # the upper end of the quantifier (length 9 / 12): every ion class, two charges, losses, both mass modes; plain,
+        # with both termini modified and with a labelled + rule-carrying form
+        seq = shard['seq']
+        for ions in ([FWD, BWD, INT, ['i'], ALL]):
+            yield {'seq': seq, 'slots': {}, 'ions': ions, 'opts': {'charges': [1, 2], 'isotopes': [0], 'loss': 3,
+                                                                   'max_losses': 1}, 'proj': ions == ALL}, len(seq), True
+        yield {'seq': seq, 'slots': {'nterm': [['Acetyl', 1]], 'cterm': [['15.995', 1]], 'rlast': [['Dimethyl', 1]]},
+               'ions': FWD + BWD, 'opts': {'charges': [1, 3], 'loss': 1, 'max_losses': 2}}, len(seq) + 3, True
+        yield {'seq': seq, 'slots': {'isotope': ['13C'], 'static': [{'mods': [['10', 1]], 'targets': ['K']}]},
+               'ions': ['b', 'y', 'by'], 'opts': {'charges': [2], 'avg': True}}, len(seq) + 2, True
+        return
     if kind == 'types':
         n = shard['n']
         sets = [[t] for t in ALL] + [FWD, BWD, INT, ['i'], ALL]
